@@ -93,6 +93,20 @@ def replay_co(model, side="below"):
         want = (bg - oil.db_o_dgor_Standing(m["T"], m["api"], m["gg"], rs)) * oil.dgor_dpressure_Standing(*a5) \
             / oil.b_o_bubblepoint_Standing(m["T"], m["api"], m["gg"], m["rsi"])
     bad = abs(got - want) > 1e-9 * abs(want)
+    if not bad and side == "below":
+        # the solver's point need not be where the real correlations differ: gassy, high-bubble-point oils near their
+        # bubble point (where B_g and dB_o/dR_s are of the same size) and lean oils at low pressure
+        for T_, api, gg, rsi in ((150.0, 35.0, 0.8, 2400.0), (100.0, 45.0, 0.9, 2500.0), (250.0, 30.0, 0.7, 1700.0), (200.0, 35.0, 0.8, 650.0), (120.0, 20.0, 1.1, 60.0)):
+            pb2 = float(oil.pressure_bubblepoint_Standing(T_, api, gg, rsi))
+            for f in (0.98, 0.9, 0.6, 0.2):
+                a = (T_, f * pb2, api, gg, rsi)
+                got2 = float(oil.oil_compressibility_Standing(*a, m["tpc"], m["ppc"], m["tstd"], m["pstd"]))
+                bg = gas.b_factor_DAK(a[0], a[1], m["tpc"], m["ppc"], m["tstd"], m["pstd"])
+                rs = oil.solution_gor_Standing(*a)
+                want2 = float((bg - oil.db_o_dgor_Standing(T_, api, gg, rs)) * oil.dgor_dpressure_Standing(*a) / oil.b_o_bubblepoint_Standing(T_, api, gg, rsi))
+                if abs(got2 - want2) > 1e-9 * abs(want2):
+                    return True, {"what": f"oil_compressibility_Standing(T={T_}, p={a[1]!r} = {f} p_b, API={api}, gas gravity {gg}, GOR {rsi}) = {got2!r} vs its "
+                                          f"defining combination {want2!r}", "inputs": dict(m, T=T_, p=a[1], api=api, gg=gg, rsi=rsi)}
     return bad, {"what": f"oil_compressibility_Standing {got!r} vs its defining combination {want!r} "
                          f"(p={'>=' if m['p'] >= pb else '<'} bubble point {pb!r})", "inputs": m}
 
